@@ -315,6 +315,13 @@ func runInstance(lp *LoadedPkg, js *JobSpec, ps map[string]int64, pools map[stri
 			res.Queries = append(res.Queries, qr)
 			continue
 		}
+		if checkProp != "" && q.Kind == "assert" && !relevant(checkProp, q.Label) {
+			// obligation of another property: neither assumed nor decided in this check
+			qr.Status = "skipped"
+			qr.Solver = "not-relevant"
+			res.Queries = append(res.Queries, qr)
+			continue
+		}
 		res.Queries = append(res.Queries, qr)
 		ws = append(ws, &work{qr, script, vars})
 	}
